@@ -112,6 +112,16 @@ func init() {
 				}
 			}
 			if tier != "selftest" {
+				// version numbers at the edges of the integer range, the list in every order
+				for _, hp := range [][2]string{{"-2,2,3,9223372036854775807", "2,3"}, {"-2,3,9223372036854775807", "2,3"}, {"-9223372036854775808,1,2,9223372036854775807", "1,2"}} {
+					n := 24
+					if strings.Count(hp[0], ",") == 2 {
+						n = 6
+					}
+					for kth := 0; kth < n; kth++ {
+						out = append(out, sp("C02", fmt.Sprintf("extreme/h%s/p%s/perm%d", hp[0], hp[1], kth), seed, P("host", hp[0], "plugin", hp[1], "mask", "8", "env", fmt.Sprintf("perm:%d", kth))))
+					}
+				}
 				// the same ClientConfig value used for two clients in a row
 				for _, first := range []string{"1", "2", "0", "L1", "3"} {
 					for _, pair := range [][2]string{{"1,2", "2"}, {"1,2", "1,2"}, {"1,2", "0"}, {"L1,2", "2"}, {"2,3", "1,3"}, {"1,2", "0,1"}} {
@@ -158,6 +168,23 @@ func init() {
 		},
 		Run: runC02,
 	})
+}
+
+// permutation returns the k-th permutation (factorial number system) of items.
+func permutation(items []string, k int) []string {
+	rest := append([]string(nil), items...)
+	var out []string
+	for n := len(rest); n > 0; n-- {
+		f := 1
+		for i := 2; i < n; i++ {
+			f *= i
+		}
+		i := (k / f) % n
+		k %= f
+		out = append(out, rest[i])
+		rest = append(rest[:i], rest[i+1:]...)
+	}
+	return out
 }
 
 func buildSets(vs verSide, mask int, tagPrefix string, shared map[int]*plugins.Shared) (legacyVer int, legacySet plugin.PluginSet, versioned map[int]plugin.PluginSet) {
@@ -265,6 +292,14 @@ func runC02(r *h.Run) {
 					kv = "PLUGIN_PROTOCOL_VERSIONS=abc,,-"
 				case "dup":
 					kv = "PLUGIN_PROTOCOL_VERSIONS=" + val + "," + val
+				default:
+					if strings.HasPrefix(envMode, "perm:") {
+						// the same list in a prescribed order (the client builds it by
+						// ranging over a map: any order may occur)
+						var kth int
+						fmt.Sscanf(envMode, "perm:%d", &kth)
+						kv = "PLUGIN_PROTOCOL_VERSIONS=" + strings.Join(permutation(parts, kth), ",")
+					}
 				}
 			}
 			env = append(env, kv)
